@@ -453,51 +453,65 @@ pub fn run_bomb(family: &str, n: usize, variant: &str, stack: usize) -> BombResu
 fn bombs(ctx: &Ctx) {
     let targets: &[usize] = ctx.tier.pick(&[4 << 10, 64 << 10, 1 << 20], &[4 << 10, 64 << 10, 256 << 10, 1 << 20, 4 << 20]);
     let variants = ["closed", "no-end-tag", "cut-half", "cut-2"];
-    let mut jobs: Vec<(String, usize, String)> = Vec::new();
-    for fam in FAMILIES {
-        for (ti, t) in targets.iter().enumerate() {
-            let n = (t / unit_bytes(fam)).max(1);
-            for (vi, v) in variants.iter().enumerate() {
-                // quick: closed at every size, the other variants at the largest size only
-                if ctx.tier == Tier::Quick && vi > 0 && ti + 1 != targets.len() {
-                    continue;
-                }
-                jobs.push((fam.to_string(), n, v.to_string()));
-            }
-        }
-    }
-    let jobs = Mutex::new(jobs.into_iter().enumerate().collect::<Vec<_>>());
+    // one worker per family, sizes in ascending order: a family is escalated beyond 1 MiB only while it
+    // is handled quickly (a slow-but-terminating family must not be mistaken for a hang at 4 MiB)
+    let fams = Mutex::new(FAMILIES.iter().enumerate().collect::<Vec<_>>());
     std::thread::scope(|sc| {
         for _ in 0..12 {
             sc.spawn(|| loop {
-                let job = jobs.lock().unwrap().pop();
-                let Some((idx, (fam, n, variant))) = job else { return };
-                ctx.eval();
-                let case = json!({"bomb": {"family": fam, "n": n, "variant": variant}});
-                match run_bomb(&fam, n, &variant, 2 << 20) {
-                    BombResult::Done(class) => {
-                        ctx.label(&format!("bomb:{fam}"));
-                        ctx.nontrivial(hash64(&(&fam, n, &variant)));
-                        if idx % 17 == 3 {
-                            ctx.sample(json!({"bomb": {"family": fam, "n": n, "variant": variant}, "outcome": class}));
-                        }
+                let job = fams.lock().unwrap().pop();
+                let Some((fi, fam)) = job else { return };
+                let mut slow = false;
+                for (ti, t) in targets.iter().enumerate() {
+                    let n = (t / unit_bytes(fam)).max(1);
+                    if slow && *t > (1 << 20) {
+                        ctx.label(&format!("bomb:{fam}: not escalated beyond 1 MiB (the 1 MiB run took > 5 s)"));
+                        continue;
                     }
-                    BombResult::Fail(f) => report(ctx, "bombs", f, case),
-                    BombResult::Died(how) => {
-                        // confirm alone
-                        match run_bomb(&fam, n, &variant, 2 << 20) {
-                            BombResult::Died(how2) => {
-                                let f = Fail::new(format!("C02/abort/{fam}"), format!("the process died ({how2}) on structural bomb {fam} n={n} variant={variant} ({} bytes of input) with a 2 MiB stack - stack overflow or abort; first run: {how}", bomb_input(&fam, n, &variant).len()));
-                                report(ctx, "bombs", f, case);
+                    for (vi, variant) in variants.iter().enumerate() {
+                        // quick: closed at every size, the other variants at the largest size only
+                        if ctx.tier == Tier::Quick && vi > 0 && ti + 1 != targets.len() {
+                            continue;
+                        }
+                        ctx.eval();
+                        let case = json!({"bomb": {"family": fam, "n": n, "variant": variant}});
+                        let t0 = Instant::now();
+                        let r = run_bomb(fam, n, variant, 2 << 20);
+                        if t0.elapsed() > Duration::from_secs(5) {
+                            slow = true;
+                        }
+                        match r {
+                            BombResult::Done(class) => {
+                                ctx.label(&format!("bomb:{fam}"));
+                                ctx.nontrivial(hash64(&(fam, n, variant)));
+                                if (fi + ti + vi) % 9 == 3 {
+                                    ctx.sample(json!({"bomb": {"family": fam, "n": n, "variant": variant}, "outcome": class, "seconds": t0.elapsed().as_secs_f64()}));
+                                }
                             }
-                            _ => ctx.inconclusive(&format!("bomb {fam} n={n} {variant} died once ({how}) but not when re-run")),
+                            BombResult::Fail(f) => report(ctx, "bombs", f, case),
+                            BombResult::Died(how) => {
+                                // confirm alone
+                                match run_bomb(fam, n, variant, 2 << 20) {
+                                    BombResult::Died(how2) => {
+                                        let f = Fail::new(format!("C02/abort/{fam}"), format!("the process died ({how2}) on structural bomb {fam} n={n} variant={variant} ({} bytes of input) with a 2 MiB stack - stack overflow or abort; first run: {how}", bomb_input(fam, n, variant).len()));
+                                        report(ctx, "bombs", f, case);
+                                    }
+                                    _ => ctx.inconclusive(&format!("bomb {fam} n={n} {variant} died once ({how}) but not when re-run")),
+                                }
+                            }
+                            BombResult::Timeout => {
+                                let len = bomb_input(fam, n, variant).len();
+                                if len <= (1 << 20) + (1 << 18) {
+                                    // the slowest legitimate family needs ~6 s per parser at this size; 240 s is no result
+                                    let f = Fail::new(format!("C02/hang/{fam}"), format!("structural bomb {fam} n={n} variant={variant} ({len} bytes) did not finish within 240 s"));
+                                    report(ctx, "bombs", f, case);
+                                } else {
+                                    ctx.inconclusive(&format!("bomb {fam} n={n} {variant} ({len} bytes) did not finish within 240 s; too large to tell slow from stuck"));
+                                }
+                            }
+                            BombResult::Infra(e) => ctx.inconclusive(&format!("bomb child: {e}")),
                         }
                     }
-                    BombResult::Timeout => {
-                        let f = Fail::new(format!("C02/hang/{fam}"), format!("structural bomb {fam} n={n} variant={variant} ({} bytes) did not finish within 240 s (linear-time handling takes milliseconds)", bomb_input(&fam, n, &variant).len()));
-                        report(ctx, "bombs", f, case);
-                    }
-                    BombResult::Infra(e) => ctx.inconclusive(&format!("bomb child: {e}")),
                 }
             });
         }
